@@ -1,8 +1,6 @@
-(* C02 judge: 0 = model and implementation agree and every completed wait on the implementation's log is a barrier; 1 = they differ,
-   property holds; 2 = the property fails on the implementation's log. *)
+(* C02 judges: barrier (lockstep log) and exactly-once under forced load.  The judge functions themselves are shared: judge_C02 / judge_C02_impl in Model/TaskSetImplCheck.v (independent of the
+   regenerated decision functions) and, for the decision runs, judge_*_d in Model/TaskSetCheck.v. *)
 From Coq Require Import ZArith List Bool.
-From DV Require Import Base.MachInt Base.Sched Model.TaskSetModel Gen.GenTaskSet Model.TaskSetCheck.
-Import ListNotations.
+From DV Require Export Model.TaskSetImplCheck Model.TaskSetCheck.
 Local Open Scope Z_scope.
-
-Definition judge_C02 (c : lcase) : Z := if negb (check_C02 c) then 2 else if agrees c then 0 else 1.
+Definition C02_judge_lockstep := judge_C02.
